@@ -34,6 +34,14 @@ type Recorder struct {
 	Widen               time.Duration
 	// Images: applied index -> canonical dump of every image handed to SaveSnapshot
 	Images map[uint64]string
+	// Hook, when set, is called at entry/exit of snapshot related state machine calls
+	Hook func(event string, name string)
+}
+
+func (r *Recorder) hook(event string, name string) {
+	if r.Hook != nil {
+		r.Hook(event, name)
+	}
 }
 
 type Delivered struct {
@@ -393,6 +401,8 @@ func (s *RegularKV) Lookup(q interface{}) (interface{}, error) { return s.c.look
 func (s *RegularKV) SaveSnapshot(w io.Writer, fc sm.ISnapshotFileCollection, stop <-chan struct{}) error {
 	s.c.enterShared("SaveSnapshot", &s.c.inSave)
 	defer atomic.AddInt32(&s.c.inSave, -1)
+	s.c.rec.hook("sm-save-enter", s.c.name)
+	defer s.c.rec.hook("sm-save-exit", s.c.name)
 	s.c.widen()
 	img := s.c.image()
 	s.c.rec.saveImage(img)
@@ -401,6 +411,8 @@ func (s *RegularKV) SaveSnapshot(w io.Writer, fc sm.ISnapshotFileCollection, sto
 func (s *RegularKV) RecoverFromSnapshot(r io.Reader, files []sm.SnapshotFile, stop <-chan struct{}) error {
 	s.c.enterExclusive("RecoverFromSnapshot", &s.c.inRecover)
 	defer atomic.AddInt32(&s.c.inRecover, -1)
+	s.c.rec.hook("sm-recover-enter", s.c.name)
+	defer s.c.rec.hook("sm-recover-exit", s.c.name)
 	s.c.widen()
 	img, err := readImage(r)
 	if err != nil {
@@ -434,6 +446,8 @@ func (s *ConcurrentKV) PrepareSnapshot() (interface{}, error) {
 func (s *ConcurrentKV) SaveSnapshot(ctx interface{}, w io.Writer, fc sm.ISnapshotFileCollection, stop <-chan struct{}) error {
 	s.c.enterShared("SaveSnapshot", &s.c.inSave)
 	defer atomic.AddInt32(&s.c.inSave, -1)
+	s.c.rec.hook("sm-save-enter", s.c.name)
+	defer s.c.rec.hook("sm-save-exit", s.c.name)
 	s.c.widen()
 	s.c.rec.saveImage(ctx.(kvImage))
 	return writeImage(w, ctx.(kvImage), int(atomic.LoadInt32(&SnapshotPad)))
@@ -441,6 +455,8 @@ func (s *ConcurrentKV) SaveSnapshot(ctx interface{}, w io.Writer, fc sm.ISnapsho
 func (s *ConcurrentKV) RecoverFromSnapshot(r io.Reader, files []sm.SnapshotFile, stop <-chan struct{}) error {
 	s.c.enterExclusive("RecoverFromSnapshot", &s.c.inRecover)
 	defer atomic.AddInt32(&s.c.inRecover, -1)
+	s.c.rec.hook("sm-recover-enter", s.c.name)
+	defer s.c.rec.hook("sm-recover-exit", s.c.name)
 	img, err := readImage(r)
 	if err != nil {
 		return err
@@ -505,6 +521,8 @@ func (s *OnDiskKV) PrepareSnapshot() (interface{}, error) {
 func (s *OnDiskKV) SaveSnapshot(ctx interface{}, w io.Writer, stop <-chan struct{}) error {
 	s.c.enterShared("SaveSnapshot", &s.c.inSave)
 	defer atomic.AddInt32(&s.c.inSave, -1)
+	s.c.rec.hook("sm-save-enter", s.c.name)
+	defer s.c.rec.hook("sm-save-exit", s.c.name)
 	s.c.widen()
 	s.c.rec.saveImage(ctx.(kvImage))
 	return writeImage(w, ctx.(kvImage), int(atomic.LoadInt32(&SnapshotPad)))
@@ -512,6 +530,8 @@ func (s *OnDiskKV) SaveSnapshot(ctx interface{}, w io.Writer, stop <-chan struct
 func (s *OnDiskKV) RecoverFromSnapshot(r io.Reader, stop <-chan struct{}) error {
 	s.c.enterExclusive("RecoverFromSnapshot", &s.c.inRecover)
 	defer atomic.AddInt32(&s.c.inRecover, -1)
+	s.c.rec.hook("sm-recover-enter", s.c.name)
+	defer s.c.rec.hook("sm-recover-exit", s.c.name)
 	img, err := readImage(r)
 	if err != nil {
 		return err
